@@ -79,7 +79,7 @@ theorem call_rule (Φ : Funs) (fuel : Nat) (σ : Env) (μ : Heap) (C : Ctx) (f :
     evalE Φ (fuel + 1) σ μ C (.call f args) =
       (do let (vs, μ') ← evalEs Φ fuel σ μ C args
           match Φ.find? f with
-          | none => .error .unbound
+          | none => (ctxCtor f vs).map (fun c => (Val.ctx c, μ'))   -- a context constructor with computed arguments, else unbound
           | some fd =>
             if fd.params.length != vs.length then .error .typeError
             else
